@@ -44,19 +44,20 @@ MayCheck == IF r.ctype = "NORMAL" THEN done[r.cur] = "none" ELSE TRUE
 MayExtract == IF r.ctype = "NORMAL" THEN done[r.cur] = "none"
               ELSE IF r.ctype \in {"FAKE", "DEFER"} THEN done[r.cur] # "re-extracted" ELSE TRUE
 IsDirEntry == IF r.ctype = "NORMAL" THEN arc[r.cur].kind = "dir" ELSE FALSE
+Es == IF b.idx # 0 THEN (IF Truncated(b.idx) THEN {TRUE, FALSE} ELSE {FALSE}) ELSE {FALSE}
 Cs == IF b.idx # 0 THEN {0, b.rem} \cup (IF b.rem > 1 THEN {1} ELSE {}) ELSE {0}
 
 Next ==
   \/ \E ok \in OkSet : NextFileWith(ok) /\ Fault(IF r.ctype \in {"START", "NORMAL"} THEN ok ELSE TRUE)
         /\ nn' = IF r'.ctype = "NORMAL" THEN nn + 1 ELSE nn
-  \/ \E k \in {1, 8}, c \in Cs, ok \in OkSet :
-        MayRead /\ ReadWith(k, c, ok) /\ Fault(IF Decodable /\ ~r.dec THEN ok ELSE TRUE) /\ UNCHANGED nn
-  \/ \E c \in Cs, ok \in OkSet :
-        MayCheck /\ CheckWith(c, ok) /\ Fault(IF Decodable THEN ok ELSE TRUE) /\ UNCHANGED nn
-  \/ \E fs \in {"ok", "fail", "made", "exists"}, c \in Cs, ok \in OkSet :
+  \/ \E k \in {1, 8}, c \in Cs, ok \in OkSet, e \in Es :
+        MayRead /\ ReadWith(k, c, ok, e) /\ Fault(IF Decodable /\ ~r.dec THEN ok ELSE TRUE) /\ UNCHANGED nn
+  \/ \E c \in Cs, ok \in OkSet, e \in Es :
+        MayCheck /\ CheckWith(c, ok, e) /\ Fault(IF Decodable THEN ok ELSE TRUE) /\ UNCHANGED nn
+  \/ \E fs \in {"ok", "fail", "made", "exists"}, c \in Cs, ok \in OkSet, e \in Es :
         /\ MayExtract
         /\ IsDirEntry = (fs \in {"made", "exists"})
-        /\ ExtractWith(fs, c, ok) /\ Fault(IF r.ctype \in {"START", "EOF", "FAKE"} \/ IsDirEntry THEN TRUE ELSE ok)
+        /\ ExtractWith(fs, c, ok, e) /\ Fault(IF r.ctype \in {"START", "EOF", "FAKE"} \/ IsDirEntry THEN TRUE ELSE ok)
         /\ UNCHANGED nn
   \/ Free /\ UNCHANGED <<faults, nn>>
 
